@@ -115,6 +115,24 @@ func genSpelling(t *kernel.Tape) spelling {
 	}
 }
 
+// ctxBody is a response body that, like net/http's, stops delivering once the request context has ended.
+type ctxBody struct {
+	ctx context.Context
+	r   io.Reader
+}
+
+func (b *ctxBody) Read(p []byte) (int, error) {
+	if err := b.ctx.Err(); err != nil {
+		return 0, err
+	}
+	if len(p) > 7 {
+		p = p[:7] // several reads per body
+	}
+	return b.r.Read(p)
+}
+
+func (b *ctxBody) Close() error { return nil }
+
 type roundTripFunc func(*http.Request) (*http.Response, error)
 
 func (f roundTripFunc) RoundTrip(r *http.Request) (*http.Response, error) { return f(r) }
@@ -174,7 +192,7 @@ func runSelection(t *testing.T, tape *kernel.Tape) *kernel.Result {
 			h := hdrs.Clone()
 			h.Set("X-Served-By", tag)
 			return &http.Response{StatusCode: status, Status: fmt.Sprintf("%d %s", status, http.StatusText(status)), Header: h,
-				Body: io.NopCloser(bytes.NewReader(body)), ContentLength: int64(len(body)), Request: req, Proto: "HTTP/1.1", ProtoMajor: 1, ProtoMinor: 1}, nil
+				Body: &ctxBody{ctx: req.Context(), r: bytes.NewReader(body)}, ContentLength: int64(len(body)), Request: req, Proto: "HTTP/1.1", ProtoMajor: 1, ProtoMinor: 1}, nil
 		})
 	}
 	rt := client.New("sim.local", "/", []string{"http"})
@@ -362,7 +380,7 @@ func (e *echoTransport) RoundTrip(req *http.Request) (*http.Response, error) {
 	}
 	h.Set("X-Echo-Token", req.Header.Get("X-Token"))
 	return &http.Response{StatusCode: p.status, Status: fmt.Sprintf("%d %s", p.status, http.StatusText(p.status)), Header: h,
-		Body: io.NopCloser(strings.NewReader(body)), ContentLength: int64(len(body)), Request: req, Proto: "HTTP/1.1", ProtoMajor: 1, ProtoMinor: 1}, nil
+		Body: &ctxBody{ctx: req.Context(), r: strings.NewReader(body)}, ContentLength: int64(len(body)), Request: req, Proto: "HTTP/1.1", ProtoMajor: 1, ProtoMinor: 1}, nil
 }
 
 func mkOperation(i int, p callPlan, out *callResult) *runtime.ClientOperation {
